@@ -15,6 +15,7 @@ Definition dispatch (tag : string) (s : sexp) : sexp :=
   else if String.eqb tag "methodslab" then run_methodslab s
   else if String.eqb tag "normpath" then run_normpath s
   else if String.eqb tag "matchlab" then run_matchlab s
+  else if String.eqb tag "routerx" then run_routerx s
   else if String.eqb tag "redirectlab" then run_redirectlab s
   else if String.eqb tag "worldlab" then run_worldlab s
   else if String.eqb tag "staticlab" then run_staticlab s
